@@ -712,10 +712,11 @@ class Bf3File:
         for instr, params in bf2_objs:
             if instr == "load" and isinstance(params, list):
                 fwtagtype = params[0].fwtagtype
-                if not is_known_tagtype(fwtagtype):
-                    raise Bf3FileFormatError(
-                        "TagType 0x{:02X} is not recognized by ConfigEditor"
-                        .format(fwtagtype))
+                for bf2line in params:
+                    if not is_known_tagtype(bf2line.fwtagtype):
+                        raise Bf3FileFormatError(
+                            "TagType 0x{:02X} is not recognized by ConfigEditor"
+                            .format(bf2line.fwtagtype))
                 start_new_tag = fwtagtype in BF2_TAGTYPE_MAP and bf2_fwdata
                 if start_new_tag:
                     emit_bf3comp()
